@@ -59,7 +59,15 @@ Inductive op :=
 | OGC (sel : rule -> bool) (* GC tickers fired: store.Alerts.GC + gcCallback on the rules selected by sel (every rule
                               has its own ticker; they are started together, so normally sel = fun _ => true) *)
 | OTick                  (* nothing but the passing of time *)
-| ORestart (snap pend : list alert).
+| ORestart (snap pend : list alert)
+| OGCDelete (sel : rule -> bool)
+| OGCCallback (sel : rule -> bool) (dead : list alert).
+  (* OGCDelete / OGCCallback: the two steps of store.Alerts.GC as the code runs them - the resolved alerts are
+     deleted under the store lock (OGCDelete); the GC callback runs afterwards (OGCCallback, one atomic step under
+     InhibitRule.mtx) on the list [dead] of deleted alerts, and the subscription loop may process updates (each one
+     atomic under InhibitRule.mtx: cache write + index write) in between. OGC is both steps with nothing in
+     between. The theorems allow ANY list [dead].
+     ORestart: *)
   (* configuration reload / restart: a NEW Inhibitor replaces the old one. Inhibitor.run: SlurpAndSubscribe
      returns the provider's snapshot [snap] (the alerts it holds, in Go map order) and a subscription on which
      the updates [pend] were published after the snapshot was taken but before it was processed; run processes
@@ -68,19 +76,29 @@ Inductive op :=
 Section Inhibit.
   Variable re : string -> string -> bool.   (* Go regexp full match, see Model/Matchers.v *)
 
-  (* processAlert, per rule: if the source side matches, scache.Set + updateIndex *)
+  (* processAlert, per rule: if the source side matches, InhibitRule.setSource = scache.Set + updateIndex as one
+     atomic step (under InhibitRule.mtx) *)
   Definition process_rule (a : alert) (r : irule) : irule :=
     if ms_matches re (r_src (ir_cfg r)) (a_lbls a)
     then mkIR (ir_cfg r) (<[a_lbls a := a]> (ir_sc r)) (ix_add (eqkey (ir_cfg r) (a_lbls a)) (a_lbls a) (ir_ix r))
     else r.
 
-  (* store.Alerts.GC: delete the alerts resolved now, then gcCallback on the deleted ones *)
+  (* store.Alerts.GC, step 1 (under the store lock): delete the alerts resolved now; they are handed to step 2 *)
   Definition gc_dead (now : Z) (sc : scache) : list alert :=
     filter (fun a => resolved_at a now = true) (map snd (map_to_list sc)).
+  Definition gc_delete_rule (now : Z) (r : irule) : irule * list alert :=
+    (mkIR (ir_cfg r) (filter (fun kv => resolved_at (snd kv) now = false) (ir_sc r)) (ir_ix r), gc_dead now (ir_sc r)).
+  (* step 2, InhibitRule.gcCallback (one atomic step under InhibitRule.mtx): the index entry of every deleted alert
+     is removed, EXCEPT when its fingerprint is in the cache again (a source update processed since step 1) *)
+  Definition gc_callback_rule (dead : list alert) (r : irule) : irule :=
+    mkIR (ir_cfg r) (ir_sc r)
+         (foldr (fun a ix => match ir_sc r !! a_lbls a with
+                             | Some _ => ix
+                             | None => ix_del (eqkey (ir_cfg r) (a_lbls a)) (a_lbls a) ix
+                             end) (ir_ix r) dead).
+  (* both steps with nothing in between *)
   Definition gc_rule (now : Z) (r : irule) : irule :=
-    mkIR (ir_cfg r)
-         (filter (fun kv => resolved_at (snd kv) now = false) (ir_sc r))
-         (foldr (fun a ix => ix_del (eqkey (ir_cfg r) (a_lbls a)) (a_lbls a) ix) (ir_ix r) (gc_dead now (ir_sc r))).
+    gc_callback_rule (snd (gc_delete_rule now r)) (fst (gc_delete_rule now r)).
 
   (* NewInhibitor + run's start-up, per rule *)
   Definition restart_rule (snap pend : list alert) (r : irule) : irule :=
@@ -92,6 +110,8 @@ Section Inhibit.
     | OGC sel => map (fun r => if sel (ir_cfg r) then gc_rule now r else r) ih
     | OTick => ih
     | ORestart snap pend => map (restart_rule snap pend) ih
+    | OGCDelete sel => map (fun r => if sel (ir_cfg r) then fst (gc_delete_rule now r) else r) ih
+    | OGCCallback sel dead => map (fun r => if sel (ir_cfg r) then gc_callback_rule dead r else r) ih
     end.
 
   Definition run (ih : list irule) (h : list (Z * op)) : list irule :=
